@@ -97,15 +97,56 @@ func C11_repeat() {
 			op = "B"
 		}
 		vars := map[string]interface{}{"v": sym.Int32("v")}
+		if sym.Choice("variable supplied", 2) == 0 {
+			vars = map[string]interface{}{} // the declared default, if any, applies
+		}
 		got, _ := root.ResolveExecutable(exe, op, vars)
 		fresh, ferr := root.ParseExecutableString(doc)
 		sym.Assert(ferr == nil, "document accepted")
-		want, _ := root.ResolveExecutable(fresh, op, map[string]interface{}{"v": vars["v"]})
+		vars2 := map[string]interface{}{}
+		for k, v := range vars {
+			vars2[k] = v
+		}
+		want, _ := root.ResolveExecutable(fresh, op, vars2)
 		sym.Observe("got", got)
 		sym.Assert(sym.DeepEqual(interface{}(got), interface{}(want)), "same response as a freshly parsed copy")
 		if sym.Known("C11-args-reordered-in-printed-form", true) {
 			continue
 		}
+		sym.Assert(exe.String() == printed, "printed form unchanged")
+	}
+}
+
+// C11_abstract: the same parsed executable resolved over different data: the
+// objects behind an interface-typed list change their concrete types from
+// call to call (covariant fields), and each call must answer like a fresh
+// parse.
+func C11_abstract() {
+	sh, _ := c01AbsShape(sym.Choice("shape", 4))
+	q := &c01AbsQuery{}
+	root := ggql.NewRoot(q)
+	if err := root.ParseString(c01AbsSchema); err != nil {
+		panic("harness schema rejected: " + err.Error())
+	}
+	if root.RegisterType(&C01Dog{}, "Dog") != nil || root.RegisterType(&C01Cat{}, "Cat") != nil {
+		panic("harness: RegisterType refused")
+	}
+	doc := sh.render()
+	exe, err := root.ParseExecutableString(doc)
+	sym.Assert(err == nil, "document accepted")
+	printed := exe.String()
+	rounds := 2
+	if sym.Thorough() {
+		rounds = 3
+	}
+	sym.Budget(12_000_000)
+	for round := 0; round < rounds; round++ {
+		q.pets = c01Pets("r"+string(rune('0'+round))+"p", 1+sym.Choice("pets", 2))
+		got, _ := root.ResolveExecutable(exe, "", nil)
+		fresh, ferr := root.ParseExecutableString(doc)
+		sym.Assert(ferr == nil, "document accepted")
+		want, _ := root.ResolveExecutable(fresh, "", nil)
+		sym.Assert(sym.DeepEqual(interface{}(got), interface{}(want)), "same response as a freshly parsed copy")
 		sym.Assert(exe.String() == printed, "printed form unchanged")
 	}
 }
